@@ -878,7 +878,7 @@ def scale_recipes(impl, models):
 
 NT = "non-trivial = two sub-spaces or a sub-space volume different from 1"
 SUBS = [
-    Sub(name="agree_single", check=check_agree, strategy=agree_recipes(1), quick=320, thorough=12000, shards=8,
+    Sub(name="agree_single", check=check_agree, strategy=agree_recipes(1), quick=240, thorough=12000, shards=8,
         jax=True, budget_quick=45.0,
         rule="one sub-space (regular grid or HEALPix), non-parametric (both kinds) or Matern, both Hartley "
              "conventions: nifty.cl maker == nifty.re maker (field and power-spectrum accessor, 1e-9) and "
@@ -904,7 +904,7 @@ SUBS = [
         rule="classic maker with at least one Matern amplitude (adjust_for_volume on/off for single spectra): same "
              "exact statistics vs the model's predicted fluctuations, per-mode variances == docstring kernel "
              "a^2 (1+(k/b)^2)^(c/2) / V; " + NT),
-    Sub(name="scale_re", check=check_scale_re, strategy=scale_recipes("re", ["np", "np", "matern"]), quick=192,
+    Sub(name="scale_re", check=check_scale_re, strategy=scale_recipes("re", ["np", "np", "matern"]), quick=128,
         thorough=8000, shards=8, jax=True, budget_quick=45.0,
         rule="nifty.re maker, power and amplitude kind, Matern with and without renormalize_amplitude: exact "
              "statistics from the dense excitation matrix == fluctuations / scale / zeromode parameters at the latent "
